@@ -27,7 +27,7 @@ func (World) Real(string) []string {
 		"process/interceptors/processor.TrieNodeInterceptorProcessor (Validate, Save)",
 		"dataRetriever/resolvers.TrieNodeResolver: RequestDataFromHashArray on the destination, ProcessReceivedMessage on every honest peer (batching, sub-trie prefetch, 256 KB budget)",
 		"data/trie.patriciaMerkleTrie (source tries built by Update/Delete/Commit; GetSerializedNode/GetSerializedNodes on the peers; Recreate/RootHash/Get on the destination)",
-		"data/trie.trieStorageManager, storage/storageUnit.Unit + storage/lrucache in front of every disk, storage/lrucache as intercepted-nodes cacher (count- or size-bounded)",
+		"data/trie.trieStorageManager, storage/storageUnit.Unit + storage/lrucache in front of every disk; intercepted-nodes cacher: storage/lrucache (count- or size-bounded) or, in 40 % of the runs, the node's real pool storage/storageCacherAdapter over storage/lrucache/capacity.capacityLRU (1-200 entries) + storageCacherAdapter/factory.trieNodeFactory with a SimDisk persister (evicted entries are spilled as serialized bytes and read back as serialized-only InterceptedTrieNodes)",
 		"data/trie/statistics.trieSyncStatistics, marshal.GogoProtoMarshalizer, hashing/blake2b, data/batch.Batch, dataRetriever.RequestData",
 	}
 }
@@ -40,6 +40,7 @@ func (World) Stub(string) []string {
 		"antiflood handler and resolver throttler: permissive; whitelist, peer blacklisting, originator checks: absent",
 		"TrieDataGetter of honest peers: the real trie behind a wrapper that clamps the sub-trie prefetch budget (knob prefetch: -1 = the resolver's own budget, 0 = no prefetch)",
 		"SimNet: per-request-index decisions (target peers, drop, duplicate, delay, late delivery) from (net seed, index); partitions, heals, context cancellation and disk faults at plan-given simulated times",
+		"sloppy honest peers (and the fault-free arm's peer in 30 % of its runs): a real resolver over the full source whose answer elements are rewritten at the Send seam into equivalent non-canonical encodings (unknown protobuf field before/after the known ones, extension/leaf fields in reverse order): same decoded node, other bytes",
 		"Byzantine peers: harness generator (genuine, foreign, corrupted, re-encoded, random, short/long branch, degenerate, typed garbage, non-canonical encoding, unsolicited nodes; silence, non-batch bytes, empty batch)",
 		"disks: simkit.SimDisk (get_error / put_error on the destination); clock: testing/synctest bubble; intercepted-nodes cacher wrapped by a pass-through recorder for probes",
 		"accounts arm after the time limit (SyncAccounts has no context to cancel): 'rescue' = perfect network, one full honest peer with the resolver's own prefetch budget, no disk faults, and the intercepted-nodes cacher behind the recorder is replaced by one of 1e6 entries; if SyncAccounts has still not returned 600 simulated seconds later every write to the destination disk is made to fail so that the syncers return an error",
@@ -61,7 +62,7 @@ func (World) Assumptions(string) []string {
 }
 
 func (World) Rule(string) string {
-	return "per run: source trie of 1-400 leaves (address-like, short dense, or shared-suffix keys; values 1-500 B, rarely 3-20 KB) built by puts/overwrites/deletes/commits; accounts arm (15 %) adds 1-3 data tries named by account leaves and drives userAccountsSyncer; knobs: syncer version, hard cap 1-5000, cacher capacity 1-100000 (optionally size-bounded), commit timeout 1-30 s, prefetch budget, destination pre-seed 0-100 %, storage cache, batch policy; 1-4 peers (full / unrelated / partial / Byzantine) and a fault schedule (drop, duplicate, delay, partition/heal, forge, slow peer, get/put error, cancel); 28 % fault-free arm. Non-trivial = the sync returned nil, the oracle walked >= 3 nodes and at least one node came through the interceptor path; distinct = hash of full plan"
+	return "per run: source trie of 1-400 leaves (address-like, short dense, or shared-suffix keys; values 1-500 B, rarely 3-20 KB) built by puts/overwrites/deletes/commits; accounts arm (15 %) adds 1-3 data tries named by account leaves and drives userAccountsSyncer; knobs: syncer version, hard cap 1-5000, cacher capacity 1-100000 (optionally size-bounded), commit timeout 1-30 s, prefetch budget, destination pre-seed 0-100 %, storage cache, batch policy; 1-4 peers (full / unrelated / partial / Byzantine / sloppy = full with non-canonical encodings); intercepted-nodes pool = plain LRU or the real storageCacherAdapter with 1-200 entries and a fault schedule (drop, duplicate, delay, partition/heal, forge, slow peer, get/put error, cancel); 28 % fault-free arm. Non-trivial = the sync returned nil, the oracle walked >= 3 nodes and at least one node came through the interceptor path; distinct = hash of full plan"
 }
 
 func (World) Budget(_ string, tier string) int {
